@@ -52,7 +52,12 @@ func TestWorker(t *testing.T) {
 		if !deadline.IsZero() && time.Now().After(deadline) {
 			rep = &explore.Report{Scenario: sc.Name, Family: sc.Family, Bound: sc.Bound, BoundDone: -1, Cap: "time budget exhausted before this scenario started"}
 		} else {
-			opt := explore.Options{Deadline: deadline, KeepSample: i == 0}
+			opt := explore.Options{Deadline: deadline, KeepSample: i == 0, KnownKeys: map[string]bool{}}
+			for _, k := range strings.Split(os.Getenv("VKNOWN"), ";;") {
+				if k != "" {
+					opt.KnownKeys[k] = true
+				}
+			}
 			if tier == "thorough" {
 				opt.DeepenSlice = 90 * time.Second
 				if sc.Deepen == 0 && sc.Bound > 0 && !sc.Once && sc.RawRun == nil {
